@@ -1,15 +1,18 @@
 /-
 Model of the `ok` computation at the end of `parser.Parse`
-(/repo/experimental/parser/parse.go):
+(/repo/experimental/parser/parse.go, as of commit de66908c):
 
     ok = true
     for _, d := range r.Diagnostics[prior:] {
-        if d.Level() >= report.Error { ok = false; break }
+        if d.Level() <= report.Error { ok = false; break }
     }
 
 Levels are the numeric values of `report.Level` (experimental/report/diagnostic.go:
-`ICE Level = 1 + iota; Error; Warning; Remark`), passed in by the harness from the compiled
-constants so that a renumbering is seen.
+`ICE Level = 1 + iota; Error; Warning; Remark` — more severe is numerically smaller), passed in by
+the harness from the compiled constants so that a renumbering is seen.
+
+`okLoopPrefix` is the loop as it was before de66908c (`d.Level() >= report.Error`), kept as
+documentation of the defect that was fixed.
 -/
 namespace PCV.XParse
 
@@ -24,15 +27,15 @@ deriving Repr, DecidableEq
 /-- the values in the pinned tree -/
 def goLevels : Levels := ⟨1, 2, 3, 4⟩
 
-/-- the loop as written: `d.Level() >= report.Error` -/
+/-- the loop as written: `d.Level() <= report.Error` -/
 def okLoop (errorLevel : Int) : List Int → Bool
   | [] => true
-  | l :: ls => if l ≥ errorLevel then false else okLoop errorLevel ls
+  | l :: ls => if l ≤ errorLevel then false else okLoop errorLevel ls
 
-/-- the candidate fix: `d.Level() <= report.Error` (more severe levels have smaller numbers) -/
-def okLoopFixed (errorLevel : Int) : List Int → Bool
+/-- the loop before the fix de66908c: `d.Level() >= report.Error` -/
+def okLoopPrefix (errorLevel : Int) : List Int → Bool
   | [] => true
-  | l :: ls => if l ≤ errorLevel then false else okLoopFixed errorLevel ls
+  | l :: ls => if l ≥ errorLevel then false else okLoopPrefix errorLevel ls
 
 /-- what the documentation of Parse promises ("whether parsing succeeded without errors"):
     no diagnostic is an error or an internal compiler error -/
